@@ -64,7 +64,7 @@ def main():
                  "Thorough tier = 20-40x the runs plus: C02/C18 compiled-kernel comparison, C09 compiled cache-trajectory probe (incl. overflow of the real 2**16-node cache), "
                  "C08 real-multiprocessing fidelity probe and 24-batch hash-seed re-execution (12 batches already in quick). "
                  "Five genuine defects of MCHap are repaired by fix: commits in /repo (80c34e4 223b6e9 1d6f459 8c9a2b4 e747dde); one is a listed known finding (KF-C14-1, known_findings.json). "
-                 "seeded/ holds independently written breaking changes with which the checks were tested (INDEX.md); sensitivity/ a catalogue of 30 source mutants. "
+                 "seeded/ holds independently written breaking changes with which the checks were tested (INDEX.md); sensitivity/ a catalogue of 37 source mutants (36 caught); seeded/ holds 128 independently written changes (127 caught, C09-e1 not: see seeded/INDEX.md). "
                  "tools_soak.sh re-runs every check at many VERIF_SEED values.",
     }
     json.dump(doc, open(os.path.join(HERE, "MANIFEST.json"), "w"), indent=1)
